@@ -176,6 +176,16 @@ theorem map_iteration_spec (m : Map) (rm : Nat × Nat → Bool) :
     mapIteration m (fun e (log : List (Nat × Nat)) => (rm e, log ++ [e])) [] = (m.filter (fun x => !rm x), m) := by
   simpa [mapIteration] using iterate_eq rm [] m []
 
+/-- the same for an arbitrary state-dependent action (it may count, remember what it has seen, …): every element is offered
+    exactly once, in order, with the state left by the previous call; exactly the elements answered with `remove` are gone -/
+theorem sequence_iteration_general (xs : List α) (action : α → σ → Bool × σ) (s : σ) :
+    seqIteration xs action s = (Spec.kept xs (Spec.decisions action xs s).1, (Spec.decisions action xs s).2) := by
+  simpa [seqIteration] using iterate_general action [] xs s
+
+theorem map_iteration_general (m : Map) (action : Nat × Nat → σ → Bool × σ) (s : σ) :
+    mapIteration m action s = (Spec.kept m (Spec.decisions action m s).1, (Spec.decisions action m s).2) := by
+  simpa [mapIteration] using iterate_general action [] m s
+
 /-! ## container helpers -/
 
 theorem join_spec (first : List β) (args : List (List β)) : join first args = first ++ args.flatten := join_eq first args
@@ -519,6 +529,9 @@ example : (allOf [0, 0, 1, 0] (· == 0)).2 = [0, 0, 1] := by rw [all_of_spec]; d
 example : Spec.StrictSorted [0, 2] ∧ (getOrInsert [(0, 5), (2, 7)] 1 (fun k (n : Nat) => (k + 10, n + 1)) 0)
     = (.ok (11, true), [(0, 5), (1, 11), (2, 7)], 1) := ⟨by unfold Spec.StrictSorted; decide, by rfl⟩
 
+-- a state-dependent action: remove every second element offered
+example : seqIteration [5, 6, 7, 8] (fun _ (n : Nat) => (n % 2 == 1, n + 1)) 0 = ([5, 7], 4) := by
+  rw [sequence_iteration_general]; decide
 -- value categories: an rvalue first and an lvalue second argument of `array::append`
 example : arrayAppendVC true false 9 [0, 1] [2] = .ok ([0, 1, 2], [9, 9], [2]) := by decide
 -- `remove(c, c[0])` on [1, 0, 1]: both 1s go although the first one is overwritten while `std::remove_if` runs
